@@ -133,9 +133,6 @@ def run(chk):
 
 
 _RE_FUNCS = ("re.compile", "re.match", "re.fullmatch", "re.search", "re.sub", "re.subn", "re.split", "re.findall", "re.finditer")
-# modules whose patterns are applied to bytes of a peer: the two HTTP parsers and what they call
-_RE_MODULES = ("aiohttp/http_parser.py", "aiohttp/helpers.py", "aiohttp/_cookie_helpers.py", "aiohttp/multipart.py", "aiohttp/http_websocket.py", "aiohttp/_websocket/helpers.py",
-               "aiohttp/web_request.py", "aiohttp/cookiejar.py", "aiohttp/client_reqrep.py", "aiohttp/web_urldispatcher.py", "aiohttp/web_fileresponse.py", "aiohttp/http_writer.py", "aiohttp/payload.py")
 
 
 def regex_cost_rule(chk, repo, folder, rule="C10.regex.linear"):
@@ -148,15 +145,18 @@ def regex_cost_rule(chk, repo, folder, rule="C10.regex.linear"):
         chk.analysis_error(f"{rule}: the hazard test does not separate its own positive and negative examples")
         return
     n = unfolded = 0
-    for rel in _RE_MODULES:
-        if not repo.has_module(rel):
-            continue
+    sites = []
+    for rel in repo.rels():
         mod = repo.module(rel)
         for c in ast.walk(mod.tree):
-            if not (isinstance(c, ast.Call) and norm.raw(c.func) in _RE_FUNCS and c.args):
-                continue
+            if isinstance(c, ast.Call) and norm.raw(c.func) in _RE_FUNCS and c.args:
+                # a pattern chosen by interpreter version (`a if sys.version_info < (3, 11) else b`): both are examined
+                alts = [c.args[0].body, c.args[0].orelse] if isinstance(c.args[0], ast.IfExp) else [c.args[0]]
+                sites += [(mod, c, a) for a in alts]
+    for mod, c, parg in sites:
+        if True:
             try:
-                pat = folder.eval(mod, c.args[0])
+                pat = folder.eval(mod, parg)
                 flags = 0
                 if norm.raw(c.func) == "re.compile":
                     fl = c.args[1] if len(c.args) > 1 else next((k.value for k in c.keywords if k.arg == "flags"), None)
@@ -180,10 +180,10 @@ def regex_cost_rule(chk, repo, folder, rule="C10.regex.linear"):
                               f"the pattern {pat!r:.120} repeats a group that can itself match a run of characters in one or in several rounds: a mismatch after n such characters costs 2**n steps - one short request line or header value (40 ordinary characters and a character the pattern refuses) keeps the event loop busy for hours")
             else:
                 chk.ok(rule, c, f"{pat!r:.60}: no nested unbounded repetition")
-    chk.expect_count(rule, n, 25, "patterns folded to constants in the modules that parse peer input")
+    chk.expect_count(rule, n, 40, "patterns of the package folded to constants")
     chk.note = getattr(chk, "note", "")
     if unfolded:
-        chk.ok(rule, repo.module(_RE_MODULES[0]).tree, f"{unfolded} pattern expression(s) are built at run time (re.escape of a boundary, a template) and are not examined")
+        chk.ok(rule, repo.module(MOD).tree, f"{unfolded} pattern expression(s) are built at run time (re.escape of a boundary, a template) and are not examined")
 
 
 def hunt3_rules(chk, repo, hp):
